@@ -295,30 +295,43 @@ def _o4(ctx, upd, rd, prov, pm, where, rel):
             cur = nxt
         added, removed = [], []
         last_op = None
+        def set_ops(e):
+            """[(op, elts)] of a set expression: displays joined by | / + (add) and - (sub), left to right."""
+            if isinstance(e, (ast.Set, ast.List, ast.Tuple)):
+                return [("add", list(e.elts))]
+            if isinstance(e, ast.BinOp) and isinstance(e.op, (ast.BitOr, ast.Add, ast.Sub)):
+                lft, rgt = set_ops(e.left), set_ops(e.right)
+                if lft is None or rgt is None or len(rgt) != 1 or rgt[0][0] != "add":
+                    return None
+                return lft + [("sub" if isinstance(e.op, ast.Sub) else "add", rgt[0][1])]
+            return None
         for d in sorted(chain, key=lambda d: d.line):
             st = d.stmt
             if d.kind == "assign":
-                elts = d.value.elts if isinstance(d.value, (ast.Set, ast.List, ast.Tuple)) else None
-                if elts is None:
-                    raise AnalysisError("C16-O4: deletion set is not built from a set display")
-                for e in elts:
-                    added.append((e, guards_of(pm, st)))
-                last_op = "add"
+                ops = set_ops(d.value)
+                if ops is None:
+                    raise AnalysisError("C16-O4: deletion set is not built from set displays")
             elif d.kind == "aug":
                 op = type(st.op).__name__
-                elts = st.value.elts if isinstance(st.value, (ast.Set, ast.List, ast.Tuple)) else None
-                if elts is None:
+                ops = set_ops(st.value)
+                if ops is None or len(ops) != 1:
                     raise AnalysisError("C16-O4: deletion set update is not a set display")
                 if op in ("BitOr", "Add"):
+                    pass
+                elif op == "Sub":
+                    ops = [("sub", ops[0][1])]
+                else:
+                    raise AnalysisError(f"C16-O4: unknown set update {op}")
+            else:
+                continue
+            for kind_, elts in ops:
+                if kind_ == "add":
                     for e in elts:
                         added.append((e, guards_of(pm, st)))
                     last_op = "add"
-                elif op == "Sub":
-                    for e in elts:
-                        removed.append(e)
-                    last_op = "sub"
                 else:
-                    raise AnalysisError(f"C16-O4: unknown set update {op}")
+                    removed.extend(elts)
+                    last_op = "sub"
         base_guards = {u(t) for t, _ in guards_of(pm, call)}
         for e, gs in added:
             k = prov.path_kind(e)
@@ -519,6 +532,15 @@ def _o6(ctx, rel):
                    f"`{cn}` ({kind}) occurs in {f.qualname}; file mutation is reserved to "
                    f"{sorted(DESIGNATED)}", rel, c.lineno, sample=dict(function=f.qualname, call=u(c)[:80]))
     col.floor("write_primitives", nprim, 3)
+    history_header_rule(ctx, "O6")
+
+
+def history_header_rule(ctx, clause: str, rule: str = "G10"):
+    """The history reader (csv.DictReader) takes the first line as the header: the writer must emit the header exactly when the
+    file holds nothing yet - not merely when it does not exist (an interrupted first update or a pre-created file leaves an
+    existing empty file)."""
+    col, pkg = ctx.col, ctx.pkg
+    rel = pkg.module(MOD).relname
     # history header only when the file did not exist
     f = pkg.func(f"{MOD}::{CLS}.{HIST_FN}")
     rd = ReachingDefs(f.node)
@@ -540,7 +562,7 @@ def _o6(ctx, rel):
             okh = True
         elif pol and on_csv and exists:
             only_exists = True
-    col.ob("G10", "O6", f"{rel}::{CLS}.{HIST_FN}::header-iff-the-history-is-empty", okh and len(guarded) == 1,
+    col.ob(rule, clause, f"{rel}::{CLS}.{HIST_FN}::header-iff-the-history-is-empty", okh and len(guarded) == 1,
            "the CSV header is written only when the history file does not *exist*" if only_exists else
            "the CSV header row is not guarded by an emptiness test of the history file", rel, f.line,
            sample="a crash after open(path, 'a') and before the first flush leaves an existing, empty file: every later update then "
@@ -642,6 +664,10 @@ def _mutants():
     from selftest.mutate import Mutant as M
     T = "training.py"
     return [
+        M("new-paths-subtracted-before-the-old-best-union", T, "clean_up = {last_model_pth, last_optim_pth}\n                    if last_best != cur_best:\n                        clean_up |= {last_best_model_pth, last_best_optim_pth}\n                    clean_up -= {model_pth, optim_pth}",
+          "clean_up = {last_model_pth, last_optim_pth} - {model_pth, optim_pth}\n                    if last_best != cur_best:\n                        clean_up |= {last_best_model_pth, last_best_optim_pth}", "cleanup-minus-new-paths"),
+        M("twin:cleanup-as-one-expression", T, "clean_up = {last_model_pth, last_optim_pth}\n                    if last_best != cur_best:\n                        clean_up |= {last_best_model_pth, last_best_optim_pth}\n                    clean_up -= {model_pth, optim_pth}",
+          "clean_up = {last_model_pth, last_optim_pth}\n                    if last_best != cur_best:\n                        clean_up = clean_up | {last_best_model_pth, last_best_optim_pth}\n                    clean_up = clean_up - {model_pth, optim_pth}", "", twin=True),
         M("swap-save-hist-no-conflict", T,
           "self.save_model_and_optimizer_with_info(model, optimizer, info)\nself.save_info_to_hist(info)",
           "self.save_info_to_hist(info)\nself.save_model_and_optimizer_with_info(model, optimizer, info)",
